@@ -142,11 +142,20 @@ def prune_builds(keep=3):
 # --------------------------------------------------------------------------
 # C++ builds
 # --------------------------------------------------------------------------
+# A second build configuration of library and harness (e.g. ["NDEBUG"]: what the project's Release / RelWithDebInfo builds define).
+# Objects and drivers of a configuration live in their own directories.
+CONFIG_DEFS = []
+
+
+def variant_dir(variant):
+    return variant + ("".join("-" + x.lower() for x in CONFIG_DEFS) if CONFIG_DEFS else "")
+
+
 def _compile(src, obj, flags):
     if os.path.exists(obj) and os.path.getmtime(obj) >= os.path.getmtime(src):
         return None
     cmd = [CXX, STD, "-I", os.path.join(REPO, "include"), "-D" + GUARD,
-           "-Wno-overloaded-virtual", "-w"] + flags + ["-c", src, "-o", obj]
+           "-Wno-overloaded-virtual", "-w"] + flags + ["-D" + x for x in CONFIG_DEFS] + ["-c", src, "-o", obj]
     p = run(cmd, timeout=900)
     if p.returncode != 0:
         return "compile failed: %s\n%s" % (" ".join(cmd), p.stderr[-6000:])
@@ -155,8 +164,8 @@ def _compile(src, obj, flags):
 
 def build_lib(variant="plain"):
     """Compile the five library TUs of the current /repo tree. Returns list of objects."""
-    d = os.path.join(build_dir(), variant)
-    with Lock("lib-" + variant):
+    d = os.path.join(build_dir(), variant_dir(variant))
+    with Lock("lib-" + variant_dir(variant)):
         os.makedirs(d, exist_ok=True)
         stamp = os.path.join(d, "lib.ok")
         objs = [os.path.join(d, t + ".o") for t in LIB_TUS]
@@ -184,11 +193,11 @@ NCPU = os.cpu_count() or 4
 
 def build_driver(name, variant="plain", with_lib=True, extra=(), srcs=None, defines=(), parts=0):
     """Compile harness/<name>.cxx against the current /repo and link it."""
-    d = os.path.join(build_dir(), variant)
+    d = os.path.join(build_dir(), variant_dir(variant))
     os.makedirs(d, exist_ok=True)
     exe = os.path.join(d, name)
     objs = build_lib(variant) if with_lib else []
-    with Lock("drv-%s-%s" % (name, variant)):
+    with Lock("drv-%s-%s" % (name, variant_dir(variant))):
         srcs = srcs or [os.path.join(HARNESS, name + ".cxx")]
         deps = list(srcs) + [f for f in _files(HARNESS) if f.endswith((".h", ".inc", ".def"))] + \
             _files(os.path.join(build_dir(), "gen"))
@@ -198,7 +207,7 @@ def build_driver(name, variant="plain", with_lib=True, extra=(), srcs=None, defi
         t0 = time.time()
         base = [CXX, "-std=c++20", "-I", os.path.join(REPO, "include"), "-I", HARNESS,
                 "-I", os.path.join(build_dir(), "gen"),
-                "-D" + GUARD, "-w"] + ["-D" + x for x in defines] + VARIANTS[variant] + list(extra)
+                "-D" + GUARD, "-w"] + ["-D" + x for x in defines] + ["-D" + x for x in CONFIG_DEFS] + VARIANTS[variant] + list(extra)
         part_objs = []
         if parts:
             # the generated dispatcher is split into translation units compiled in parallel
